@@ -559,3 +559,7 @@ SUBCHECKS = [
     Sub('C05.arity_errors', run_arity, strategy=case_st, examples={'quick': 4000, 'thorough': 50000}),
     Sub('C05.wrongly_sized_values', run_arity, strategy=resize_case_st, examples={'quick': 3000, 'thorough': 40000}),
 ]
+
+for _s in SUBCHECKS:
+    if _s.name in ['C05.pack_unpack_tokenstring_compose']:
+        _s.fuzz = True
